@@ -115,6 +115,7 @@ def main():
     ap.add_argument("--seeds", default="1,2,3")
     ap.add_argument("--tier", default="quick")
     ap.add_argument("--out", default="/tmp/sweep/results.json")
+    ap.add_argument("--as", dest="as_prop", default="", help="seeds / benign: run every patch against this property's check instead of its own")
     a = ap.parse_args()
     ROOT.mkdir(exist_ok=True)
     jobs = queue.Queue()
@@ -126,7 +127,7 @@ def main():
             if only and not any(d.name == o or d.name.startswith(o + "-") for o in only):
                 continue
             meta = json.load(open(d / "meta.json")) if (d / "meta.json").exists() else {}
-            prop = meta.get("property", d.name.split("-")[0])
+            prop = a.as_prop or meta.get("property", d.name.split("-")[0])
             jobs.put({"id": d.name, "prop": prop, "patch": str(d / "patch.diff")})
     elif a.mode == "clean":
         props = [p for p in a.props.split(",") if p] or PROPS
